@@ -1,0 +1,7 @@
+//go:build !verif
+
+package desync
+
+func verifSparse(ev string, a, b int) {}
+
+func verifSparseFlag(ev string, a int, flag bool) {}
